@@ -28,11 +28,15 @@ fn main() {
     let names_pool = ["a", "b", "c", "m::a", "m::b", "t1", "t2", "t3", "x", "y", "z", "aa", "ab", "zz"];
     for case in 0..n {
         // suites: 1-4 binaries, each 0-30 tests (sizes above 20 matter for sort implementations)
-        let nbins = rng.range(1, 4) as usize;
+        let nbins = rng.range(1, 5) as usize;
         let mut suites = Vec::new();
         let mut desc = Vec::new();
+        // binary ids whose order as strings differs from their order by components (package name first, then
+        // no name < name only < kind/name): `RustBinaryId`'s `Ord` is the latter
+        let mut id_pool = vec!["w0", "w0::b2", "w0::b0", "w0-x", "w0-x::b1", "w0::bin/zz", "w0::bench/a", "w0_y::t", "w0::b", "w0::b0-x", "w0.z", "w0-x::bin/a"];
+        for i in (1..id_pool.len()).rev() { let j = rng.below(i as u64 + 1) as usize; id_pool.swap(i, j); }
         for b in 0..nbins {
-            let bid = format!("w0::b{}", [2, 0, 3, 1][b]);
+            let bid = id_pool[b].to_string();
             let big = rng.chance(1, 3);
             let nt = if big { rng.range(15, 30) } else { rng.below(6) } as usize;
             let mut cases: BTreeMap<String, RustTestCaseSummary> = BTreeMap::new();
